@@ -92,7 +92,7 @@ fn judge_sizes(name: &str, whole_packet: bool, o: &BuildObs) -> Verdict {
     Ok(())
 }
 
-fn c06_oracle(c: &BuildCase, st: &mut Stats) -> Verdict {
+pub(crate) fn c06_oracle(c: &BuildCase, st: &mut Stats) -> Verdict {
     let name = c.spec.long_name();
     st.label(&name);
     let salt = c.salt;
@@ -166,7 +166,7 @@ fn part_reference(p: &PartCase) -> (Vec<u8>, bool) {
     }
 }
 
-fn c06_part_oracle(p: &PartCase, st: &mut Stats) -> Verdict {
+pub(crate) fn c06_part_oracle(p: &PartCase, st: &mut Stats) -> Verdict {
     let name = match p {
         PartCase::Chunk(_) => "SdesChunkBuilder",
         PartCase::Item(_) => "SdesItemBuilder",
@@ -217,7 +217,7 @@ pub fn c06(tier: Tier) -> Check {
                 at: Box::new(|i| {
                     let mut spec = kind_template((i / 256) as usize);
                     spec.set_padding((i % 256) as u8);
-                    BuildCase { spec, how: How { wrap: i % 3 == 1, fb_owned: i % 2 == 1, single_compound: false }, salt: i }
+                    BuildCase { spec, how: How { wrap: i % 3 == 1, fb_owned: i % 2 == 1, single_compound: false, owned: i % 4 == 3 }, salt: i }
                 }),
                 oracle: c06_oracle,
                 exhaustive: true,
@@ -253,7 +253,7 @@ pub fn c06(tier: Tier) -> Check {
                     };
                     BuildCase {
                         spec: PacketSpec::Fb(FbSpec { kind, sender: 0, media: 0, fci, padding: [0u8, 4, 3][(i / 10) as usize] }),
-                        how: How { fb_owned: i % 4 < 2, wrap: i % 3 == 0, single_compound: false },
+                        how: How { fb_owned: i % 4 < 2, wrap: i % 3 == 0, single_compound: false, owned: false },
                         salt: i,
                     }
                 }),
@@ -360,7 +360,7 @@ fn near_a_limit(p: &PacketSpec) -> bool {
     })
 }
 
-fn c16_oracle(c: &BuildCase, st: &mut Stats) -> Verdict {
+pub(crate) fn c16_oracle(c: &BuildCase, st: &mut Stats) -> Verdict {
     let name = c.spec.long_name();
     let rules = violations(&c.spec);
     st.label(&name);
@@ -460,7 +460,7 @@ fn total_size_case(i: u64) -> BuildCase {
     BuildCase { spec, how: How::default(), salt: 0 }
 }
 
-fn c16_total_oracle(i: &u64, st: &mut Stats) -> Verdict {
+pub(crate) fn c16_total_oracle(i: &u64, st: &mut Stats) -> Verdict {
     st.label(if i % 2 == 1 { "65537 words (must be rejected)" } else { "65536 words or the largest that fits (must be accepted)" });
     c16_oracle(&total_size_case(*i), st)
 }
@@ -483,7 +483,7 @@ pub fn c16(tier: Tier) -> Check {
                 at: Box::new(|i| {
                     let mut spec = kind_template((i / 256) as usize);
                     spec.set_padding((i % 256) as u8);
-                    BuildCase { spec, how: How { wrap: i % 3 == 1, fb_owned: i % 2 == 1, single_compound: false }, salt: 0 }
+                    BuildCase { spec, how: How { wrap: i % 3 == 1, fb_owned: i % 2 == 1, single_compound: false, owned: i % 4 == 3 }, salt: 0 }
                 }),
                 oracle: c16_oracle,
                 exhaustive: true,
@@ -570,7 +570,7 @@ fn limit_sweep(mut i: u64) -> BuildCase {
 // C17
 // ---------------------------------------------------------------------------------------------
 
-fn c17_oracle(c: &BuildCase, st: &mut Stats) -> Verdict {
+pub(crate) fn c17_oracle(c: &BuildCase, st: &mut Stats) -> Verdict {
     let name = c.spec.long_name();
     st.label(&name);
     let a = splitmix(c.salt ^ 0x1111);
@@ -658,7 +658,7 @@ pub fn c17(tier: Tier) -> Check {
                 at: Box::new(|i| {
                     let mut spec = kind_template((i / 64) as usize);
                     spec.set_padding(((i % 64) * 4) as u8);
-                    BuildCase { spec, how: How { wrap: i % 3 == 1, fb_owned: i % 2 == 1, single_compound: i % 7 == 6 }, salt: i }
+                    BuildCase { spec, how: How { wrap: i % 3 == 1, fb_owned: i % 2 == 1, single_compound: i % 7 == 6, owned: i % 4 == 3 }, salt: i }
                 }),
                 oracle: c17_oracle,
                 exhaustive: true,
@@ -706,7 +706,7 @@ fn ambiguous(v: &[PacketSpec]) -> bool {
     v.iter().any(|m| matches!(m, PacketSpec::Compound(inner) if ambiguous(inner)))
 }
 
-fn c14_oracle(c: &BuildCase, st: &mut Stats) -> Verdict {
+pub(crate) fn c14_oracle(c: &BuildCase, st: &mut Stats) -> Verdict {
     let members = match &c.spec {
         PacketSpec::Compound(m) => m,
         _ => return Ok(()),
@@ -886,7 +886,7 @@ pub fn c14(tier: Tier) -> Check {
                         }
                         _ => {}
                     }
-                    BuildCase { spec: PacketSpec::Compound(vec![a, b]), how: How { wrap: i % 2 == 1, fb_owned: i % 3 == 1, single_compound: false }, salt: 0 }
+                    BuildCase { spec: PacketSpec::Compound(vec![a, b]), how: How { wrap: i % 2 == 1, fb_owned: i % 3 == 1, single_compound: false, owned: i % 4 == 3 }, salt: 0 }
                 }),
                 oracle: c14_oracle,
                 exhaustive: true,
